@@ -260,6 +260,66 @@ def run_history(kind: str, cap: int, auto_reload: bool, ns_key: bool, ops: list[
         shutil.rmtree(root, ignore_errors=True)
 
 
+def shared_loader_history(kind: str, ops: list[tuple]) -> str | None:
+    """ONE loader object used by TWO environments (different environment globals, different
+    auto_escape): every load-and-render must give what the same sequence gives on a
+    non-caching loader shared the same way.  ops: ('L', env 0|1, name, async, via) |
+    ('M', name, content).  Returns a description of the first difference, or None."""
+    from liquid2 import (CachingChoiceLoader, CachingDictLoader, CachingFileSystemLoader,
+                         ChoiceLoader, DictLoader, Environment, FileSystemLoader)
+    from liquid2.exceptions import TemplateNotFoundError
+
+    root = Path(tempfile.mkdtemp(prefix="c14s_", dir=os.environ.get("VERIF_SCRATCH", "/var/tmp")))
+    loop = asyncio.new_event_loop()
+    try:
+        d1: dict[str, str] = {}
+        d2: dict[str, str] = {}
+        (root / "c").mkdir()
+        (root / "u").mkdir()
+        if kind == "dict":
+            cached, twin = CachingDictLoader(d1), DictLoader(d2)
+        elif kind == "fs":
+            cached, twin = CachingFileSystemLoader(root / "c"), FileSystemLoader(root / "u")
+        else:
+            cached = CachingChoiceLoader([DictLoader({}), FileSystemLoader(root / "c")])
+            twin = ChoiceLoader([DictLoader({}), FileSystemLoader(root / "u")])
+        envs = []
+        for ld in (cached, twin):
+            envs.append((Environment(loader=ld, globals={"e": "A<"}, auto_escape=False),
+                         Environment(loader=ld, globals={"e": "B<"}, auto_escape=True)))
+        ver = 1
+        for i, op in enumerate(ops):
+            if op[0] == "M":
+                text = f"{op[2]}|{{{{ e }}}}|{{{{ '<' | append: x }}}}"
+                d1[op[1]] = d2[op[1]] = text
+                for side in ("c", "u"):
+                    f = root / side / op[1]
+                    f.write_text(text)
+                    os.utime(f, (1_000_000 + ver, 1_000_000 + ver))
+                ver += 1
+                continue
+            _, which, name, is_async, via = op
+            outs = []
+            for pair in envs:
+                env = pair[which]
+                try:
+                    if via:
+                        t = env.from_string("{% " + via + " '" + name + "' %}")
+                        outs.append(loop.run_until_complete(t.render_async(x="<")) if is_async else t.render(x="<"))
+                    else:
+                        t = (loop.run_until_complete(env.get_template_async(name)) if is_async else env.get_template(name))
+                        outs.append(t.render(x="<"))
+                except TemplateNotFoundError:
+                    outs.append("NOTFOUND")
+            if outs[0] != outs[1]:
+                return (f"step {i}: environment {'AB'[which]} got {outs[0]!r} through the shared caching loader, "
+                        f"{outs[1]!r} through the shared non-caching loader")
+        return None
+    finally:
+        loop.close()
+        shutil.rmtree(root, ignore_errors=True)
+
+
 # ---------------------------------------------------------------- Coq terms
 
 
@@ -548,6 +608,32 @@ def main(chk: C.Check, build: C.Build) -> None:
                         {"kind": kind, "capacity": cap, "auto_reload": ar, "namespace_key": nsk,
                          "ops": ops, "steps": res["steps"], "how": "harness/c14.py run_history"})
 
+    # one loader shared by two environments (fixed in /repo: an entry parsed by another
+    # environment is not served)
+    shared_runs = 0
+    for kind in ("dict", "fs", "choicefs"):
+        fixed = [("M", "t", 1), ("L", 0, "t", False, None), ("L", 1, "t", False, None), ("L", 0, "t", True, None),
+                 ("L", 1, "t", True, "include"), ("L", 0, "t", False, "render"), ("M", "t", 2), ("L", 1, "t", False, None),
+                 ("L", 0, "t", True, "include")]
+        if kind == "dict":
+            # a dict loader gives no freshness information: a later edit may be served stale
+            fixed = [o for o in fixed if o != ("M", "t", 2)]
+        seqs = [fixed]
+        for _ in range(6 if not thorough else 60):
+            seq: list[tuple] = [("M", "t", 1), ("M", "u", 2)]
+            for _ in range(r.randint(3, 9)):
+                if r.random() < 0.2 and kind != "dict":
+                    seq.append(("M", r.choice(["t", "u"]), r.randint(3, 99)))
+                else:
+                    seq.append(("L", r.randint(0, 1), r.choice(["t", "u"]), r.random() < 0.5, r.choice([None, None, "include", "render"])))
+            seqs.append(seq)
+        for seq in seqs:
+            shared_runs += 1
+            fail = shared_loader_history(kind, seq)
+            if fail:
+                chk.finding("oracle:shared-loader-serves-other-environment", fail,
+                            {"kind": kind, "ops": seq, "how": "harness/c14.py shared_loader_history"})
+
     # known finding: re-observe the recorded collision history
     res = run_history(*COLLISION)
     fail = oracle(*COLLISION, res)
@@ -574,6 +660,7 @@ def main(chk: C.Check, build: C.Build) -> None:
                      "observed": [s["c"] for s in results[i]["steps"]]}
                     for i, h in list(enumerate(hist))[:: max(1, len(hist) // 4)][:4]],
         "distribution": dist,
+        "shared_loader_histories": shared_runs,
         "exhaustive": False,
         "tier_proved": "kernel (LRU + caching loader state machine)",
     })
